@@ -253,9 +253,12 @@ def run(ctx: lib.Ctx) -> None:
                         report('export followed by import does not yield the same key', {**rp, 'exported': txt, 'imported': ck.key_tuple(k3) if ok else repr(k3)})
                     if p:
                         wrong = rng.choice([p + (b'x' if isinstance(p, bytes) else 'x'), 'wrong', b'\x00', ''])
+                        # HMAC pads its key with zero bytes: passphrases that differ only in trailing NUL bytes ('\x00' and '')
+                        # derive the same PBKDF2 key, so one opens what the other locked — not a wrong passphrase in effect
+                        enc = lambda x: (x.encode() if isinstance(x, str) else x).rstrip(b'\x00')  # noqa: E731
                         if wrong != p:
                             kw = a_from_encoded(cs, txt, wrong, 'wrong-passphrase')
-                            if kw is not None:
+                            if kw is not None and enc(wrong) != enc(p):
                                 report('an encrypted key was imported with a wrong passphrase', {**rp, 'exported': txt, 'wrong': show(wrong)})
                         a_from_encoded(cs, txt, None, 'missing-passphrase')
                     # damaged texts
